@@ -249,6 +249,10 @@ def r2_no_state(ctx: Context) -> None:
                     elif isinstance(base, ast.Attribute) and isinstance(base.value, ast.Name) and prog.class_of_name(f.module, base.value.id) is not None:
                         ctx.fail("R2.no-state", f"{_q(f)}:class-attr:{src(base)}", f"`{src(stmt)[:90]}` writes a class attribute during an evaluation", f, stmt)
                     elif isinstance(base, ast.Name) and sub and base.id in prog.module_consts.get(f.module.name, {}) and base.id not in _locals(f):
+                        from ..util import is_value_memo_store
+                        if is_value_memo_store(prog, f, stmt, base.id):
+                            ctx.ok("R2.no-state", f"{_q(f)}:value-memo:{base.id}", f"`{base.id}` is a memo keyed by value whose entries nobody writes into: an evaluation reads what it would have computed")
+                            continue
                         ctx.fail("R2.no-state", f"{_q(f)}:module-state:{base.id}", f"`{src(stmt)[:90]}` writes module-level `{base.id}` during an evaluation", f, stmt)
             for d in f.node.decorator_list:
                 name = (dotted(d) or (dotted(d.func) if isinstance(d, ast.Call) else "") or "").split(".")[-1]
